@@ -427,14 +427,19 @@ func coqBody(c *Case) string {
 			for j, r := range s.Resources {
 				rs[j] = clabels(r)
 			}
-			ts := make([]int64, len(s.Points))
-			vs := make([]float64, len(s.Points))
-			for j, p := range s.Points {
-				ts[j], vs[j] = p.TsS, p.Val
+			var ts []int64
+			var vs []float64
+			var stamped []uint64
+			for _, p := range s.Points {
+				if p.NoTs {
+					stamped = append(stamped, bits(p.Val))
+				} else {
+					ts, vs = append(ts, p.TsS), append(vs, p.Val)
+				}
 			}
-			ss[i] = fmt.Sprintf("DS %s %s %s", copt(s.Metric), clist(rs), csamples(ts, vs))
+			ss[i] = fmt.Sprintf("DS %s %s %s %s", copt(s.Metric), clist(rs), csamples(ts, vs), cns(stamped))
 		}
-		return "BDDMet " + clist(ss)
+		return "BDDMet " + ddmetClock(c) + " " + clist(ss)
 	case "otlp":
 		rs := make([]string, len(c.Body.Otlp))
 		for i, r := range c.Body.Otlp {
